@@ -412,6 +412,8 @@ func leafKind(e error) string {
 		if errors.Is(e, clientip.ErrUnspecifiedIpAddress) {
 			return "ERemoteUnspecified"
 		}
+	case errors.Is(e, fox.ErrNoClientIPResolver):
+		return "ENoResolver"
 	case strings.HasPrefix(e.Error(), "chain resolver: no resolver configured"):
 		// clientip.ErrChain, matched by text so that the harness still builds against a tree that predates it
 		return "EChainEmpty"
@@ -1017,7 +1019,8 @@ func main() {
 		"x resolver (kind, header, count, limit, options, trusted ranges, chains) x attacker prefix (none / extra lines / text before the first comma / both; " +
 		"systematic set on a share of the bases, random otherwise), each run on the attacked and on the untouched request; " +
 		"parse cases: ParseIPAddr on every distinct entry text generated. " +
-		"non-trivial = resolver case whose header under attack has >= 2 entries in total or whose result is an address, or parse case that is not plain dotted-quad; distinct = distinct Coq case terms"}
+		"through-fox cases: Context.ClientIP called by a middleware in every handler scope of one router (router-wide resolver or none, two routes with their own resolver, two without) over a sequence of requests (pooled contexts recycled); " +
+		"non-trivial = any through-fox case, resolver case whose header under attack has >= 2 entries in total or whose result is an address, or parse case that is not plain dotted-quad; distinct = distinct Coq case terms"}
 	g := &gen{rnd: rnd, boundary: boundaryAddrs(tabs), atoms: map[string]bool{}}
 
 	seen := map[string]bool{}
@@ -1240,6 +1243,127 @@ func main() {
 			}
 		}
 		addGroup(rq, d, attacks, "base")
+	}
+
+	// Context.ClientIP THROUGH fox: one router (router-wide resolver or none, routes with and without
+	// their own WithClientIPResolver), a middleware in every handler scope calling c.ClientIP(), and a
+	// SEQUENCE of requests served one after the other so that pooled contexts are recycled between
+	// route / redirect / no-route / no-method / options handlers
+	nscen, nreq := 50, 16
+	if tier == "thorough" {
+		nscen, nreq = 400, 20
+	}
+	for sc := 0; sc < nscen; sc++ {
+		type rec struct {
+			scope fox.HandlerScope
+			o     outcome
+		}
+		var recs []rec
+		audit := func(next fox.HandlerFunc) fox.HandlerFunc {
+			return func(c fox.Context) {
+				ip, err := c.ClientIP()
+				recs = append(recs, rec{c.Scope(), outcome{ip: ip, err: err}})
+				next(c)
+			}
+		}
+		mk := func() (*rdesc, fox.ClientIPResolver, string) {
+			for {
+				d := g.resolver(0)
+				res, err := d.build()
+				if err != nil {
+					continue
+				}
+				t, err := d.coq()
+				if err != nil {
+					continue
+				}
+				return d, res, t
+			}
+		}
+		opts := []fox.GlobalOption{fox.WithRedirectTrailingSlash(true), fox.WithNoMethod(true), fox.WithAutoOptions(true), fox.WithMiddlewareFor(fox.AllHandlers, audit)}
+		globTerm, globHuman := "None", "<none>"
+		if !rnd.Pct(30) {
+			d, res, t := mk()
+			opts = append(opts, fox.WithClientIPResolver(res))
+			globTerm, globHuman = "(Some "+t+")", d.human()
+		}
+		f, err := fox.New(opts...)
+		hx.Fatal(err)
+		okh := func(c fox.Context) { _ = c.String(http.StatusOK, "ok") }
+		d1, r1, t1 := mk()
+		d2, r2, t2 := mk()
+		_, err = f.Handle(http.MethodGet, "/ra", okh, fox.WithClientIPResolver(r1))
+		hx.Fatal(err)
+		_, err = f.Handle(http.MethodGet, "/rb/", okh, fox.WithClientIPResolver(r2))
+		hx.Fatal(err)
+		_, err = f.Handle(http.MethodGet, "/rc", okh)
+		hx.Fatal(err)
+		_, err = f.Handle(http.MethodGet, "/rd/", okh)
+		hx.Fatal(err)
+		type shot struct {
+			method, path string
+			scope        fox.HandlerScope
+			route        string // Coq term of the scope: option (option resolver)
+			label        string
+		}
+		shots := []shot{
+			{http.MethodGet, "/ra", fox.RouteHandler, "(Some (Some " + t1 + "))", "route /ra with its own resolver " + d1.human()},
+			{http.MethodGet, "/rb/", fox.RouteHandler, "(Some (Some " + t2 + "))", "route /rb/ with its own resolver " + d2.human()},
+			{http.MethodGet, "/rc", fox.RouteHandler, "(Some None)", "route /rc without own resolver"},
+			{http.MethodGet, "/rd/", fox.RouteHandler, "(Some None)", "route /rd/ without own resolver"},
+			{http.MethodGet, "/rb", fox.RedirectHandler, "None", "redirect /rb -> /rb/"},
+			{http.MethodGet, "/rd", fox.RedirectHandler, "None", "redirect /rd -> /rd/"},
+			{http.MethodGet, "/ra/", fox.RedirectHandler, "None", "redirect /ra/ -> /ra"},
+			{http.MethodGet, "/nope", fox.NoRouteHandler, "None", "no route"},
+			{http.MethodPost, "/ra", fox.NoMethodHandler, "None", "method not allowed on /ra"},
+			{http.MethodOptions, "/rb/", fox.OptionsHandler, "None", "automatic OPTIONS on /rb/"},
+		}
+		prev := "<first request>"
+		for k := 0; k < nreq; k++ {
+			sh := hx.Pick(rnd, shots)
+			if k%2 == 1 && rnd.Pct(60) { // often: a route with its own resolver, then a handler without route
+				sh = shots[4+rnd.Intn(6)]
+			} else if k%2 == 0 && rnd.Pct(60) {
+				sh = shots[rnd.Intn(2)]
+			}
+			rq := g.request()
+			req := rq.httpRequest(rnd.Pct(50))
+			req.Method = sh.method
+			req.URL.Path = sh.path
+			req.RequestURI = sh.path
+			recs = recs[:0]
+			panicked := false
+			func() {
+				defer func() {
+					if recover() != nil {
+						panicked = true
+					}
+				}()
+				f.ServeHTTP(httptest.NewRecorder(), req)
+			}()
+			var o outcome
+			switch {
+			case panicked:
+				o = outcome{panicked: true, pval: "panic while serving"}
+			case len(recs) != 1 || recs[0].scope != sh.scope:
+				hx.Fatal(fmt.Errorf("through-fox stream: %s %s reached %d audited handlers (scope %v), expected one in scope %v", sh.method, sh.path, len(recs), recs, sh.scope))
+			default:
+				o = recs[0].o
+			}
+			term := fmt.Sprintf("CVia %s %s %s %s", globTerm, sh.route, rq.coq(), o.coq())
+			human := fmt.Sprintf("Context.ClientIP in [%s] (router-wide resolver %s; previous request on this router: %s) on {%s} => %s",
+				sh.label, globHuman, prev, rq.human(), o.human())
+			prev = sh.label
+			if !seen[term] {
+				seen[term] = true
+				all = append(all, entry{term, human})
+			}
+			observations++
+			nontrivial++
+			st.Count("stream:through-fox")
+			st.Count("through-fox:" + strings.SplitN(sh.label, " ", 2)[0])
+			st.Count("outcome:" + o.class())
+		}
 	}
 
 	// ParseIPAddr on every entry text generated above (and mutations of them)
